@@ -180,6 +180,22 @@ func c03Catalogue(g, otherG *protocoltypes.Group, typ protocoltypes.EventType, k
 		v2[b/8] ^= 1 << uint(b%8)
 		add(fmt.Sprintf("f5-bitflip-box/%d", b), v2, i%16 == 0)
 	}
+	// f11: the genuine signature (and, for member-device announcements, the genuine member signature) re-used on another payload
+	{
+		p2 := c03BuildPayload(typ, dev, mem, c04RandPK())
+		if isMemberDevice {
+			p2.(*protocoltypes.GroupMemberDeviceAdded).MemberSig = payload.(*protocoltypes.GroupMemberDeviceAdded).MemberSig
+		}
+		if !proto.Equal(p2, payload) {
+			add("f11-genuine-sig-on-other-payload", seal(g, typ, p2, goodSig), true)
+		}
+		if isMemberDevice {
+			// another device announces itself under the victim member with the member signature copied from the genuine announcement
+			md := proto.Clone(payload).(*protocoltypes.GroupMemberDeviceAdded)
+			md.DevicePk = c03Raw(k.other)
+			add("f11-member-sig-copied-from-genuine", seal(g, typ, md, c03Sign(k.other, md)), true)
+		}
+	}
 	// f6: empty signature
 	add("f6-nosig", seal(g, typ, payload, nil), true)
 	add("f6-short-sig", seal(g, typ, payload, goodSig[:63]), true)
@@ -229,7 +245,7 @@ func TestVerifC03(t *testing.T) {
 	defer rep.Finish(t)
 	rep.Rule = "every event type of the protocol table (read from the table at run time) x forgery catalogue (signature by another device / group key / member key, signer swapped after signing, every bit flip of the signature, seeded bit flips of payload and box, " +
 		"missing/short signature, unknown type numbers, other group's secret, member-device announcement variants, malformed envelopes) x three group types; each forgery is opened directly and (all but most bit flips) appended to the live log of a victim replica, " +
-		"followed by a valid marker event; oracle: open fails, no event for the forged entry reaches subscribers, the getter snapshot is unchanged; positive control: the correctly signed event IS applied/emitted. distinct = (group type, event type, forgery)"
+		"followed by a valid marker event; oracle: open fails, no event for the forged entry reaches subscribers, the getter snapshot is unchanged; positive control: the correctly signed event IS applied/emitted; second pass after the genuine event was opened and applied (history-dependent acceptance): every forgery opened again, those re-using genuine signature material appended again. distinct = (group type, event type, forgery, before/after genuine)"
 	ctx := context.Background()
 	w := newVWorld(t)
 	victim := w.newReplica("V", nil)
@@ -340,6 +356,53 @@ func TestVerifC03(t *testing.T) {
 							rep.Count("positive_controls_changed_state", 1)
 						}
 					}
+				}
+			}
+			// second pass, AFTER the genuine event was opened and applied: acceptance must not depend on what was seen
+			// before (signature caches, learned keys). Every forgery is opened again; those that re-use genuine
+			// material enter the log again behind a third marker.
+			afterControl := snapshotStore(ms).String()
+			var forged2 []string
+			for _, f := range forgeries {
+				var oerr error
+				if pnc, _ := verifkit.Try(func() { _, _, oerr = openGroupEnvelope(g, f.env) }); pnc != nil {
+					continue // already reported by the first pass
+				}
+				rep.Case(tag + "/after-genuine/" + f.id)
+				if oerr == nil {
+					rep.Violate("C03/forgery-opens-after-genuine/"+classOfForgery(f.id)+"/"+typ.String(), "a forged metadata envelope was opened as valid once the genuine event had been opened",
+						map[string]interface{}{"group_type": gt.String(), "event_type": typ.String(), "forgery": f.id})
+				} else {
+					rep.Count("rejected_by_open_after_genuine", 1)
+				}
+				cls := classOfForgery(f.id)
+				if !f.inLog || !(cls == "f5-bitflip-payload" || cls == "f11-genuine-sig-on-other-payload" || cls == "f11-member-sig-copied-from-genuine" || cls == "f4-signer-swapped" || len(cls) > 2 && cls[:2] == "f9") {
+					continue
+				}
+				if pnc, _ := verifkit.Try(func() {
+					if ent, err := ms.AddOperation(ctx, operation.NewOperation(nil, "ADD", f.env), nil); err == nil && ent != nil {
+						forged2 = append(forged2, ent.GetHash().String())
+					}
+				}); pnc != nil {
+					rep.Violate("C03/panic/append", fmt.Sprintf("appending a forged entry panicked the store: %v", pnc), map[string]interface{}{"case": tag, "forgery": f.id})
+				}
+			}
+			if len(forged2) > 0 {
+				if mop3, err := ms.SendAppMetadata(ctx, []byte("marker3")); err != nil {
+					rep.Violate("C03/store-poisoned", fmt.Sprintf("after the forged entries a valid append fails: %v", err), tag)
+				} else if err := sub.waitFor(mop3.GetEntry().GetHash().String()); err != nil {
+					rep.Inconclusivef("%s: %v", tag, err)
+				} else {
+					for i, c := range forged2 {
+						if sub.has(c) {
+							rep.Violate("C03/forgery-emitted-after-genuine/"+typ.String(), "a forged entry re-using genuine signature material was handed to subscribers", map[string]interface{}{"group_type": gt.String(), "event_type": typ.String(), "index": i})
+						}
+					}
+					if after := snapshotStore(ms).String(); after != afterControl {
+						rep.Violate("C03/forgery-changed-state-after-genuine/"+typ.String(), "group state changed although only forged entries (and a neutral marker) were added after the genuine event",
+							map[string]interface{}{"group_type": gt.String(), "event_type": typ.String(), "before": afterControl, "after": after})
+					}
+					rep.Count("forged_entries_in_log_after_genuine", len(forged2))
 				}
 			}
 			if ti == 0 && gt == protocoltypes.GroupType_GroupTypeAccount {
